@@ -82,7 +82,8 @@ theorem importPipeline_keeps (v : Variant) (c : PipeCfg) (prov : Nat) (x : Id) (
 /-- C15.position_kept — "the stored position of every connector that persists across an import
 with the same id and type is kept": for every variant, state, configuration, failing
 store-operation index — successful, failed and rolled-back imports alike. `old` is the exported
-current configuration. Full strength. -/
+current configuration. The hypotheses constrain id and type only: name, settings, processors and
+*plugin* (all mutable connector fields, applied by `updateConnectorAction`) may change. Full strength. -/
 theorem C15_position_kept (v : Variant) (s : St) (c old : PipeCfg) (xo xn : ConnCfg) (cc : Cn)
     (hex : exportPl v s.mem c.id = .ok (some old))
     (ho : xo ∈ old.conns) (hn : xn ∈ c.conns) (hid : xo.id = xn.id) (htyp : xo.typ = xn.typ)
@@ -169,6 +170,24 @@ theorem C15_import_fail_atomic_counterexample_position :
     let s' := after Variant.repaired s cfgD
     (applyPlan Variant.repaired cfgD { s with ctr := 0 }).1 = .error .inv ∧
     (s.mem.cns 11).map (·.state) = some 7 ∧ (s'.mem.cns 11).map (·.state) = some 0 := by
+  decide +kernel
+
+/-- `cfgB` with only the connector's *plugin* changed (a mutable field: same id, same type). -/
+def cfgBPlugin : PipeCfg :=
+  { cfgA with conns := [{ id := 11, typ := 1, plugin := 2, name := 1, settings := 1,
+                          procs := [⟨12, 1, 1, 1, 0⟩, ⟨13, 2, 0, 1, 0⟩] }] }
+
+/-- position kept on the plugin-change path (an instance of `C15_position_kept`, whose hypotheses
+mention id and type only): position 7 written, the plugin-only change imported — one
+`updateConnectorAction` —, the connector has the new plugin and still position 7, in memory and
+in the store. -/
+example :
+    let v := Variant.repaired
+    let s := (exec v (after v st0 cfgB) (.envState 11 7) none).2
+    let s' := after v s cfgBPlugin
+    planSize v s.mem cfgBPlugin = .ok 1 ∧
+    (s'.mem.cns 11).map (fun c => (c.plugin, c.state)) = some (2, 7) ∧
+    (s'.kv.cns 11).map (fun c => (c.plugin, c.state)) = some (2, 7) := by
   decide +kernel
 
 /-! ## non-vacuity -/
